@@ -7,8 +7,10 @@ import (
 	"net"
 	"strings"
 	"sync"
+	"sync/atomic"
 	"time"
 
+	"github.com/saucelabs/forwarder"
 	"github.com/saucelabs/forwarder/proxyproto"
 
 	"verifharness/coqfmt"
@@ -264,6 +266,87 @@ func runConnCases(out string, r *rng.R, thorough bool, m *meta) {
 		n = 128
 	}
 	runConnHistory(out, m, n)
+	runLimiterScenario(out, m)
+}
+
+// countingWriter counts what was drained from the bulk connection.
+type countingWriter struct{ n atomic.Int64 }
+
+func (w *countingWriter) Write(p []byte) (int, error) { w.n.Add(int64(len(p))); return len(p), nil }
+
+// runLimiterScenario: forwarder.Listener (the production stacking code, Listener.Listen) with the PROXY protocol AND a
+// write limit.  Connection A uploads until the listener-wide limiter has used up its burst and throttles it; then new
+// connections send a complete well-formed header (v1, v2) at once: the header is not payload, so each must be accepted
+// within the header timeout with the advertised addresses - whatever the other clients of the listener are doing.
+func runLimiterScenario(out string, m *meta) {
+	l := forwarder.Listener{ListenerConfig: forwarder.ListenerConfig{
+		Address:             "127.0.0.1:0",
+		ProxyProtocolConfig: &forwarder.ProxyProtocolConfig{ReadHeaderTimeout: 800 * time.Millisecond},
+		WriteLimit:          64, // bytes per second the clients may send; the burst is 4 MiB
+	}}
+	if err := l.Listen(); err != nil {
+		panic(err)
+	}
+	defer l.Close()
+	ca, err := net.Dial("tcp", l.Addr().String())
+	if err != nil {
+		panic(err)
+	}
+	defer ca.Close()
+	go func() {
+		ca.Write([]byte("PROXY TCP4 192.0.2.1 198.51.100.1 1111 3128\r\n"))
+		ca.Write(make([]byte, 6<<20)) // blocks once the limiter stalls the server side; ends when ca is closed
+	}()
+	sa, err := l.Accept()
+	if err != nil {
+		panic(err)
+	}
+	defer sa.Close()
+	var drained countingWriter
+	go io.Copy(&drained, sa)
+	throttled := false
+	for deadline := time.Now().Add(15 * time.Second); time.Now().Before(deadline); {
+		before := drained.n.Load()
+		time.Sleep(150 * time.Millisecond)
+		if after := drained.n.Load(); after >= 4<<20-64<<10 && after == before {
+			throttled = true
+			break
+		}
+	}
+	var coq []string
+	var js []any
+	b6 := append(append(append([]byte{}, net.ParseIP("2001:db8::77")...), net.ParseIP("2001:db8::88")...), 0x1f, 0x90, 0x00, 0x50)
+	for _, hdr := range [][]byte{[]byte("PROXY TCP4 192.0.2.2 198.51.100.2 2222 3128\r\n"), v2header(0x21, 0x21, 36, b6), []byte("PROXY TCP6 2001:db8::2 2001:db8::3 4 5\r\n")} {
+		ch := make(chan net.Conn, 1)
+		go func() {
+			c, err := l.Accept()
+			if err != nil {
+				ch <- nil
+				return
+			}
+			ch <- c
+		}()
+		cb, err := net.Dial("tcp", l.Addr().String())
+		if err != nil {
+			panic(err)
+		}
+		cb.Write(hdr)
+		cb.(*net.TCPConn).CloseWrite()
+		sb := <-ch
+		if sb == nil {
+			cb.Close()
+			continue
+		}
+		o := observe(sb, 0)
+		note := fmt.Sprintf("a complete header sent while the listener's rate limit was exhausted by another connection (throttled=%v after %d bytes)", throttled, drained.n.Load())
+		coq = append(coq, coqCcase(hdr, cb.LocalAddr(), cb.RemoteAddr(), o))
+		js = append(js, ccaseJSON{"conn-limiter", "forwarder.Listener", hex.EncodeToString(hdr), nil, note})
+		sb.Close()
+		cb.Close()
+	}
+	m.LimiterCases = len(coq)
+	m.LimiterThrottled = throttled
+	m.Kinds = append(m.Kinds, writeKind(out, "lcases", "ccase", "ccase_model_ok", "ccase_verdict", coq, js, 150, ""))
 }
 
 // runConnHistory keeps n accepted connections (each with its own header) open at the same time: the addresses are
